@@ -15,8 +15,9 @@ def generate(G):
              kind="refusal", skeleton={"program": prog, "leaves": ls, "what": what})
 
     # sum(k): every k for a few shapes
-    quick_sum = {("2x3", 1), ("2x3", 2), ("2x2x2", 2), ("2x2x2", 0), ("2x1x2", 3), ("3", 1), ("2x1x1", 2), ("1x1", 2)}
-    for d in ([3], [2, 3], [2, 2, 2], [2, 1, 2], [1, 3], [2, 2, 1, 2], [2, 2, 2, 2], [1, 1], [3, 2], [2, 1, 1], [1, 1, 1], [2, 1]):
+    quick_sum = {("2x3", 1), ("2x3", 2), ("2x2x2", 2), ("2x2x2", 0), ("2x1x2", 3), ("3", 1), ("2x1x1", 2), ("1x1", 2), ("3x3", 2), ("11", 1)}
+    for d in ([3], [2, 3], [2, 2, 2], [2, 1, 2], [1, 3], [2, 2, 1, 2], [2, 2, 2, 2], [1, 1], [3, 2], [2, 1, 1], [1, 1, 1], [2, 1],
+              [3, 3], [11], [2, 3, 3], [13]):
         for k in range(0, len(d) + 1):
             n = G.numel(d)
             tier = "quick" if (G.sname(d), k) in quick_sum else "thorough"
@@ -26,6 +27,10 @@ def generate(G):
          skeleton={"dims": [2, 3]})
     G.ob("c07_sumall_2x2x2", "C07", "sum_all", "fwd::sum_all(s, %s)" % G.leaves([U([2, 2, 2])]), unwind=11, tier="thorough",
          skeleton={"dims": [2, 2, 2]})
+    G.ob("c07_sumall_3x3", "C07", "sum_all", "fwd::sum_all(s, %s)" % G.leaves([U([3, 3])]), unwind=12, tier="quick",
+         skeleton={"dims": [3, 3], "why": "odd element count above 8"})
+    G.ob("c07_sumall_17", "C07", "sum_all", "fwd::sum_all(s, %s)" % G.leaves([U([17], "D2")]), unwind=20, tier="thorough",
+         skeleton={"dims": [17]})
     # reshape
     for a, b, tier in [([2, 3], [3, 2], "quick"), ([2, 3], [6], "thorough"), ([6], [1, 2, 3], "quick"), ([2, 1, 2], [2, 2], "thorough"),
                        ([2, 2], [1, 4, 1], "thorough"), ([4], [2, 2], "thorough"), ([2, 2, 2], [4, 2], "thorough"), ([1], [1, 1, 1], "thorough")]:
@@ -43,7 +48,8 @@ def generate(G):
     fwd("relu_3", "Relu", [U([3], "Sgn")], "thorough", 6)
     fwd("powf3_2x2", "Powf(3.0)", [U([2, 2])], "quick", 7, stubs=("powf",))
     fwd("powf_half_3", "Powf(0.5)", [U([3], "Base")], "thorough", 6, stubs=("powf",))
-    fwd("powf_m1_3", "Powf(-1.0)", [U([3], "Pos")], "thorough", 6, stubs=("powf",))
+    fwd("powf_m1_3", "Powf(-1.0)", [U([3], "Pos")], "quick", 6, stubs=("powf",))
+    fwd("powf_m2_2", "Powf(-2.0)", [U([2], "Pos")], "thorough", 6, stubs=("powf",))
     fwd("powf0_2", "Powf(0.0)", [U([2])], "thorough", 6, stubs=("powf",))
     fwd("ln_2x2", "Ln", [U([2, 2], "Pos")], "quick", 7, stubs=("ln",))
     fwd("exp_2x2", "Exp", [U([2, 2])], "quick", 7, stubs=("exp",))
